@@ -38,6 +38,9 @@ type Op struct {
 	ID    int    `json:"id,omitempty"`    // method id (def)
 	Twice bool   `json:"twice,omitempty"` // an :around that calls call-next-method twice
 	Args  []int  `json:"args,omitempty"`  // class index of each argument (call)
+	// Up: the specializers are spelled in upper case (symbols are not case
+	// sensitive: FIXNUM and fixnum name the same class)
+	Up bool `json:"up,omitempty"`
 }
 
 // Case is a history dealt to 1..3 routines plus the schedule.
@@ -115,11 +118,11 @@ func genOp(r *tape.Rand, arity int, nextID *int, wDef, wRem, wCall int, builtin 
 	switch {
 	case x < wDef:
 		*nextID++
-		op := Op{K: "def", Qual: quals[r.Intn(len(quals))], Specs: spec(), ID: *nextID}
+		op := Op{K: "def", Qual: quals[r.Intn(len(quals))], Specs: spec(), ID: *nextID, Up: r.Pct(12)}
 		op.Twice = op.Qual == "around" && r.Pct(20)
 		return op
 	case x < wDef+wRem:
-		return Op{K: "rem", Qual: quals[r.Intn(len(quals))], Specs: spec()}
+		return Op{K: "rem", Qual: quals[r.Intn(len(quals))], Specs: spec(), Up: r.Pct(12)}
 	}
 	a := make([]int, arity)
 	for i := range a {
@@ -245,6 +248,9 @@ func (e *engine) Generate(seed uint64, idx int, tier string, avoid []harness.Fin
 	c.Tasks = make([][]Op, ntasks)
 	for i := 0; i < n; i++ {
 		op := genOp(r, c.Arity, &nextID, wDef, wRem, wCall, c.World == "builtin")
+		if op.Up && c.World == "builtin" && avoidsTrig(avoid, "up-nonclass") && upNonClass(op) {
+			op.Up = false
+		}
 		t := r.Intn(ntasks)
 		c.Tasks[t] = append(c.Tasks[t], op)
 	}
@@ -254,6 +260,21 @@ func (e *engine) Generate(seed uint64, idx int, tier string, avoid []harness.Fin
 	c.PCTDepth = 1 + r.Intn(3)
 	b, _ := json.Marshal(c)
 	return b
+}
+
+// upNonClass: the operation spells, in upper case, a built-in type that is
+// not a class of the running code (slip.FindClass does not know it: list,
+// cons) - the trigger of known finding C10-specializer-case-nonclass.
+func upNonClass(op Op) bool {
+	if !op.Up {
+		return false
+	}
+	for _, sp := range op.Specs {
+		if sp >= 0 && sp < len(builtinSpecs) && slip.FindClass(builtinSpecs[sp]) == nil {
+			return true
+		}
+	}
+	return false
 }
 
 func avoidsTrig(avoid []harness.Finding, t string) bool {
@@ -631,7 +652,7 @@ func (w *world) source(op Op) string {
 				ll = append(ll, params[i]) // an unspecialized parameter is specialized on t
 				continue
 			}
-			ll = append(ll, fmt.Sprintf("(%s %s)", params[i], w.spec(s)))
+			ll = append(ll, fmt.Sprintf("(%s %s)", params[i], spell(w.spec(s), op.Up)))
 		}
 		q := ""
 		if op.Qual != "" {
@@ -656,7 +677,7 @@ func (w *world) source(op Op) string {
 	case "rem":
 		var sp []string
 		for _, s := range op.Specs {
-			sp = append(sp, w.spec(s))
+			sp = append(sp, spell(w.spec(s), op.Up))
 		}
 		q := "()"
 		if op.Qual != "" {
@@ -681,6 +702,13 @@ func (w *world) source(op Op) string {
 		return fmt.Sprintf("(compute-applicable-methods '%s (list %s))", w.gf, strings.Join(as, " "))
 	}
 	return fmt.Sprintf("(%s %s)", w.gf, strings.Join(as, " "))
+}
+
+func spell(name string, up bool) string {
+	if up {
+		return strings.ToUpper(name)
+	}
+	return name
 }
 
 type rec struct {
@@ -1024,6 +1052,16 @@ func (e *engine) Shrink(raw json.RawMessage) (out []json.RawMessage) {
 			}
 		}
 	}
+	// plain spelling, single call-next-method
+	for ti := range c.Tasks {
+		for oi, op := range c.Tasks[ti] {
+			if op.Up || op.Twice {
+				n := clone()
+				n.Tasks[ti][oi].Up, n.Tasks[ti][oi].Twice = false, false
+				emit(n)
+			}
+		}
+	}
 	// simpler schedule: shorter tape, zeroed tail, lower yield density
 	if len(c.Tape) > 0 {
 		n := clone()
@@ -1099,6 +1137,19 @@ func (e *engine) Matches(raw json.RawMessage, v *harness.Violation, f harness.Fi
 		return n >= 2
 	case "concurrent":
 		return len(c.Tasks) > 1
+	case "up-nonclass":
+		if c.World != "builtin" {
+			return false
+		}
+		builtinOnce.Do(builtinInit)
+		for _, t := range c.Tasks {
+			for _, op := range t {
+				if upNonClass(op) {
+					return true
+				}
+			}
+		}
+		return false
 	}
 	return false
 }
